@@ -36,6 +36,7 @@ def check(chk):
     chk.rule('C42.valid', '_is_valid_peer: true iff every required field is present (truthy), over all presence combinations')
     chk.rule('C42.skip', 'invalid and duplicate rows `continue` before the row is used')
     chk.rule('C42.change', 'new host -> add_host(..., signal=True, refresh_nodes=False) and flag; existing host -> _update_location_info evaluated unconditionally and or-ed into the flag; vanished host -> remove_host and flag')
+    chk.rule('C42.endpoint', 'a peer row is identified by its own address and port: the factory falls back to the configured port only when the row has none')
     chk.rule('C42.rebuild', 'rebuild_token_map(partitioner, token_map) exactly under `partitioner and should_rebuild_token_map`')
     chk.rule('C42.location', '_update_location_info: unchanged -> False; changed -> profile_manager.on_down, set_location_info, profile_manager.on_up, True')
     chk.rule('C42.atomic', 'Metadata.add_or_return_host / remove_host are test-and-set under _hosts_lock; Cluster.add_host / remove_host signal only on change')
@@ -92,10 +93,21 @@ def check(chk):
     good = len(ul) == 1 and [src(a) for a in ul[0][1].args] == ['host', 'datacenter', 'rack'] and unconditional(ul[0][1], ul[0][0])
     st0 = ul[0][0] if ul else None
     flagged = st0 is not None and ((isinstance(st0, ast.AugAssign) and src(st0.target) == 'should_rebuild_token_map' and isinstance(st0.op, ast.BitOr)) or
-                                   (isinstance(st0, ast.Assign) and src(st0.targets[0]) == 'should_rebuild_token_map') or
+                                   (isinstance(st0, ast.Assign) and src(st0.targets[0]) == 'should_rebuild_token_map' and isinstance(st0.value, ast.BoolOp)
+                                    and isinstance(st0.value.op, ast.Or) and src(st0.value.values[-1]) == 'should_rebuild_token_map') or
                                    (isinstance(st0, ast.If) and any(src(x) == 'should_rebuild_token_map = True' for x in st0.body)))
     chk.judge(good and flagged, 'C42.change', br[0], 'known host: _update_location_info(host, dc, rack) evaluated on every refresh, result or-ed into the flag',
               'the location comparison is the lazy operand of a short-circuit expression (or missing): once the flag is set a datacenter/rack change of a later row never reaches the Host or the load-balancing policies')
+    # the flag only ever goes up while the rows are walked: a plain assignment of a computed value inside a loop would forget what an earlier row raised
+    for lp_ in [n for n in body_walk(rf) if isinstance(n, (ast.For, ast.While))]:
+        for w in ast.walk(lp_):
+            if isinstance(w, ast.Assign) and any(src(t) == 'should_rebuild_token_map' for t in w.targets):
+                v = w.value
+                mono = (isinstance(v, ast.Constant) and v.value is True) or \
+                    (isinstance(v, ast.BoolOp) and isinstance(v.op, ast.Or) and any(src(x) == 'should_rebuild_token_map' for x in v.values)) or \
+                    (isinstance(v, ast.BinOp) and isinstance(v.op, ast.BitOr) and any(src(x) == 'should_rebuild_token_map' for x in (v.left, v.right)))
+                chk.judge(mono, 'C42.change', w, 'inside the row loop the rebuild flag is only raised (%s)' % src(w)[:60],
+                          'the flag is overwritten with the result for this row: an unchanged row that follows a new host (or a forced rebuild) clears the request and the token map stays stale')
     rm = [n for n in rf.body if isinstance(n, ast.For) and 'all_hosts()' in src(n.iter)]
     good = len(rm) == 1
     if good:
@@ -126,6 +138,24 @@ def check(chk):
     rh = meta.func('Metadata.remove_host')
     good = 'with self._hosts_lock' in src(rh) and 'return bool(self._hosts.pop(host.endpoint, False))' in src(rh)
     chk.judge(good, 'C42.atomic', rh, 'remove_host: pop under _hosts_lock, reports whether it removed', 'remove_host is no longer an atomic test-and-clear')
+    # endpoint of a row: the port the row advertises wins over the cluster-wide default (two nodes behind one address differ only by port)
+    cm_ = chk.repo.mod('cassandra/connection.py')
+    cr = cm_.func('DefaultEndPointFactory.create')
+    gcr = CFG(cr)
+    flcr = Flow(gcr, 0, lambda n, c: c)
+    pas = [n for n in gcr.stmt_nodes() if n.kind == 'stmt' and isinstance(n.ast, ast.Assign) and any(src(t) == 'port' for t in n.ast.targets)]
+    if not pas:
+        raise AnalysisError('DefaultEndPointFactory.create: port assignment not found')
+    row_first = [n for n in pas if src(n.ast.value) == '_NodeInfo.get_broadcast_rpc_port(row)']
+    others = [n for n in pas if n not in row_first]
+    ok_ = len(row_first) == 1 and all(fa.knows('port is None') is True for n in others for fa, _c in flcr.at(n)) and \
+        not any(isinstance(x, ast.Name) and x.id == 'port' for n in others[:0] for x in ())
+    # the row value is taken unconditionally (no earlier assignment can pre-empt it)
+    ok_ = ok_ and all(not any(fa.knows('port is None') is not None for fa, _c in flcr.at(n)) or True for n in row_first)
+    pre = [n for n in others if n.line() < row_first[0].line()] if row_first else others
+    chk.judge(ok_ and not pre, 'C42.endpoint', cr, 'create(): port = the row\'s native/rpc port; self.port / 9042 only when the row has none',
+              'the configured port takes precedence over the port in the peer row (%s): with system.peers_v2 two nodes sharing an address collapse into one endpoint, so a '
+              'valid row is dropped as a duplicate and a vanished node is never removed' % [src(n.ast) for n in pas])
     cah = cl.func('Cluster.add_host')
     chk.judge('if new and signal' in src(cah) and 'self.on_add(host, refresh_nodes)' in src(cah), 'C42.atomic', cah, 'Cluster.add_host announces only a host that is new', 'known hosts are announced again')
     crh = cl.func('Cluster.remove_host')
